@@ -35,6 +35,19 @@ class Sym:
         return "Sym<%s:%s>" % (self.k, self.t)
 
 
+class NanReal:
+    """float that may be NaN: NaN when ``isnan`` (z3 Bool | python bool) else the real ``val``"""
+
+    __slots__ = ("isnan", "val")
+
+    def __init__(self, isnan, val):
+        self.isnan = isnan
+        self.val = val
+
+    def __repr__(self):
+        return "NanReal<%s ? nan : %r>" % (self.isnan, self.val)
+
+
 class SOpt:
     """Optional[...]: None when ``isnone`` else ``val``"""
 
